@@ -140,6 +140,7 @@ func (g *DependencyGraph) AddProvider(provider Provider) error {
 	g.edges[nodeKey] = dependencies
 
 	// Update in/out degrees
+	g.linkGroups()
 	g.updateDegrees()
 
 	// Mark caches as dirty
@@ -290,6 +291,55 @@ func (g *DependencyGraph) RemoveProvider(serviceType reflect.Type, key any, grou
 	g.cycleCacheDirty = true
 }
 
+// groupRef identifies a value group independently of its members' keys
+type groupRef struct {
+	Type  reflect.Type
+	Group string
+}
+
+// linkGroups makes every group reference node (the target of a dependency on a
+// whole group: group set, no key) depend on all members of that group, so that
+// cycle detection and ordering see through group dependencies.
+func (g *DependencyGraph) linkGroups() {
+	var members map[groupRef][]NodeKey
+	for key, node := range g.nodes {
+		if key.Group == "" || key.Key == nil || node.Provider == nil {
+			continue
+		}
+
+		if members == nil {
+			members = make(map[groupRef][]NodeKey)
+		}
+
+		ref := groupRef{Type: key.Type, Group: key.Group}
+		members[ref] = append(members[ref], key)
+	}
+
+	for key, node := range g.nodes {
+		if key.Group == "" || key.Key != nil {
+			continue
+		}
+
+		// Start from the node's own dependencies (if it has a provider),
+		// then add the current members of the group
+		edges := make([]NodeKey, 0, 4)
+		if node.Provider != nil {
+			for _, dep := range node.Provider.GetDependencies() {
+				edges = append(edges, NodeKey{Type: dep.Type, Key: dep.Key, Group: dep.Group})
+			}
+		}
+
+		edges = append(edges, members[groupRef{Type: key.Type, Group: key.Group}]...)
+
+		node.Dependencies = edges
+		if len(edges) > 0 {
+			g.edges[key] = edges
+		} else {
+			delete(g.edges, key)
+		}
+	}
+}
+
 // updateDegrees recalculates in/out degrees for all nodes
 func (g *DependencyGraph) updateDegrees() {
 	// Reset all degrees and dependent lists
@@ -392,7 +442,9 @@ func (g *DependencyGraph) DetectCycles() error {
 	g.mu.Lock()
 	defer g.mu.Unlock()
 
-	// Update degrees first (may have been deferred from AddProviderDeferred)
+	// Link group references to their members and update degrees first
+	// (both may have been deferred from AddProviderDeferred)
+	g.linkGroups()
 	g.updateDegrees()
 
 	// Check cache
